@@ -2,6 +2,7 @@
 pub mod liquid_core { pub mod model {
     #[derive(Clone, Copy)]
     pub enum State { Truthy, DefaultValue, Empty, Blank }
+    pub use crate::KString;
 } }
 pub use liquid_core::model::State;
 
@@ -10,6 +11,8 @@ pub uninterp spec fn veq(a: VId, b: VId) -> bool;
 pub uninterp spec fn vcmp(a: VId, b: VId) -> Option<core::cmp::Ordering>;
 pub uninterp spec fn truthy(a: VId) -> bool;
 pub uninterp spec fn nil_vid() -> VId;
+/// the integer a value denotes, if it is an integer (or a string spelling one)
+pub uninterp spec fn vid_int(v: VId) -> Option<i64>;
 /// Liquid truth: nil is not truthy (`false` is the other falsy value; stated by the scalar/Value query_state tables)
 pub broadcast axiom fn axiom_nil_not_truthy() ensures !#[trigger] truthy(nil_vid());
 
@@ -21,7 +24,10 @@ impl ValueCow {
     pub fn as_view(&self) -> (r: &dyn ValueView) ensures r.vid_of() == self.vid() { unimplemented!() }
     pub uninterp spec fn scalar_of(&self) -> Option<ScalarCow>;
     #[verifier::external_body]
-    pub fn as_scalar(&self) -> (r: Option<ScalarCow>) ensures r == self.scalar_of() { unimplemented!() }
+    pub fn as_scalar(&self) -> (r: Option<ScalarCow>)
+        ensures r == self.scalar_of(),
+                (match r { Some(s) => s.int_view(), None => None }) == vid_int(self.vid())
+    { unimplemented!() }
     #[verifier::external_body]
     pub fn into_owned(self) -> (r: Value) ensures r.vid() == self.vid() { unimplemented!() }
     #[verifier::external_body]
